@@ -759,6 +759,16 @@ impl AutosarModel {
             filemap.insert(filename, new_file.downgrade());
         }
 
+        // the root element itself is not copied below: transfer its comment and attributes
+        {
+            let orig_root = self.root_element();
+            let copy_root = copy.root_element();
+            let orig_root_locked = orig_root.0.read();
+            let mut copy_root_locked = copy_root.0.write();
+            copy_root_locked.comment = orig_root_locked.comment.clone();
+            copy_root_locked.attributes = orig_root_locked.attributes.clone();
+        }
+
         // by inserting copies of the sub elements of <AUTOSAR>, we automatically
         // get up-to-date identifiables and reference_origins
         for element in self.root_element().sub_elements() {
